@@ -348,6 +348,31 @@ RebinAxesCommute(r, v, shape, d, sample) ==  \* doing the last axis first gives 
 RebinRejects(err, shape, d) ==
   err = ~(Len(d) = Len(shape) /\ \A a \in DOMAIN shape : d[a] % shape[a] = 0 \/ shape[a] % d[a] = 0)
 
+(* LINEARITY.  SMOOTH and REBIN are linear maps with non-negative weights that sum to 1. *)
+(* These laws are what lets the harness build inputs of huge dynamic range (one sample   *)
+(* 2^60 times larger than the others) from two small enumerated arrays: the specified    *)
+(* result of a * s + b * t is a * (result of s) + b * (result of t), exactly, so a small  *)
+(* window next to a huge sample must still come out exactly (no cancellation).           *)
+Lin(a, s, b, t) == [k \in 1 .. Len(s) |-> Add(Mul(a, s[k]), Mul(b, t[k]))]
+AbsSeq(s) == [k \in 1 .. Len(s) |-> RAbs(s[k])]
+SmoothLinear(r, s, t, a, b, w, edge) ==       \* r = Smooth(s, w, edge)
+  Smooth(Lin(a, s, b, t), w, edge) = Lin(a, r, b, Smooth(t, w, edge))
+SmoothReach(k, n, w, edge) ==                 \* the (1-based) samples element k depends on
+  LET h == OddWidth(w) \div 2
+  IN IF OddWidth(w) >= 3 /\ (IsInterior(k - 1, n, h) \/ edge)
+     THEN {Clamp(j, n) + 1 : j \in (k - 1 - h) .. (k - 1 + h)} ELSE {k}
+SmoothSupport(r, s, w, edge) ==               \* s >= 0: an element is 0 exactly when everything in its reach is 0
+  (\A k \in DOMAIN s : Le(Zero, s[k])) =>
+     \A k \in DOMAIN s : (r[k] = Zero) = (\A j \in SmoothReach(k, Len(s), w, edge) : s[j] = Zero)
+RebinLinear(r, v, u, a, b, shape, d, sample) ==  \* r = Rebin(v, shape, d, sample)
+  Rebin(Lin(a, v, b, u), shape, d, sample) = Lin(a, r, b, Rebin(u, shape, d, sample))
+RebinWeightsArePartition(shape, d, sample) ==    \* per axis and output subscript: weights >= 0 summing to 1,
+  \A a \in DOMAIN shape : \A i \in 0 .. (d[a] - 1) :   \* on distinct in-range source subscripts
+     LET ws == AxisWeights(shape[a], d[a], sample, i)
+     IN /\ Total([t \in 1 .. Len(ws) |-> ws[t][2]]) = One
+        /\ \A t \in 1 .. Len(ws) : Lt(Zero, ws[t][2]) /\ ws[t][1] \in 0 .. (shape[a] - 1)
+        /\ \A t, t2 \in 1 .. Len(ws) : t # t2 => ws[t][1] # ws[t2][1]
+
 (* ---- named deviation (see DESIGN.md section 6) ---- *)
 (* D-C14-1: the expansion position i*d0/d is computed as i*(d0/d) in floating point; when *)
 (* d/d0 has an inexact reciprocal (first: 49) the product can fall just below the integer *)
